@@ -42,6 +42,7 @@ here (the first thirty were written before most checks existed, so "missed" coul
 * C13-m7 (bin scale taken from the first interval instead of the whole range), C18-m7 (`StandardizeOn` stores the statistics of its first batch on the instance) and C19-m7 (`moving_var` clamps variances below 1.5e-8 of the mean square to zero) - strengthened on reading the change, before the first run against it: 256-bin grids whose first edge is off by the accepted rounding-sized tolerance with samples 5e-8 of a width inside their bins; the same preprocess instance applied to three different batches; moving statistics of every signal riding on a DC level of 40000.
 * C05-m7 (`empty_like` gives the mix-columns result the dtype of an int8 state) - the round primitives on int8 states; C12-m7 (class values used as row indices when a declared class was never built) - template matching with one declared class left without building traces, for every declaration order; C17-m7 (MIA window estimated on the raw samples of a Container that has a preprocess) - the last configuration of every C17 attack removes a DC level with a Container preprocess, MIA there with its automatic window; C20-m8 (`check()` touches the very Trace objects `run()` will write) - the user function leaves a note on each trace (another one in the dry run), the output must carry the run's note.  C09-m6 (both variances divided by n1) first turned into exit 2: the scheduler harness *asserted* that its free-running oracle is the Welch statistic - now a VIOLATION; C16-m7 (class counters updated before the kernel that can still refuse the batch) was reported, and float16 trace batches (refused by the compiled kernels at dispatch) were added as a rejection kind.
 * C02-m8 (a fractional number of traces per batch from a budget in MB: `ceil(N / 10.9)` batches of 10 traces) - long trace sets (140..1200 traces) under budgets that give 10.83 / 19.83 / 110.08 traces per batch.
+* C18-m8 (range frames turned into slices in point-to-point mode) - descending and negative ranges in the combination frame menu; C20-m9 (one row buffer reused for every accepted trace, its tail never cleared) - results whose length differs from trace to trace (6 / 4 / 2 samples) for every accept / reject pattern up to five traces.  C07-m8 (the guess-independent term of DES DeltaRLastRounds memoised on the identity of the ciphertext array) was reported by the reused-array history added after C05-m6, before any change of that kind had been seen for C07.
 * Three confirmed candidates were **not kept** because what they change lies outside the property as quantified: a `des.get_master_key` that returns its first candidate instead of `None` when *no* candidate reproduces the pair (C10 speaks about consistent round key / pair inputs only); a `maxabs` computed as max(nanmax, -nanmin), which wraps for *unsigned integer* inputs (C15 quantifies the discriminants over float arrays with NaNs; on the unchanged tree `opposite_min`, and `maxabs`/`abssum` at the most negative value, already wrap for integer inputs - an observation outside every listed property), and a `pinv(..., rcond=L*eps(precision))` for the pooled covariance, which differs from the default only for covariances whose conditioning exceeds the resolution of the working precision, where the float32 Mahalanobis score is not decidable within any tolerance the check could justify.
 * C15-m3 and C13-m4 first turned into exit 2 (an unguarded call / memory exhaustion in my harness) - now VIOLATIONs.
 
